@@ -22,7 +22,7 @@ def drivers():
 def record(drv, wd, mode, tag, thorough):
     tpath = os.path.join(wd, "%s_%s.ndjson" % (mode, tag))
     p = vp.run([drv, mode, tpath, str(vp.seed()), "1" if thorough else "0"], timeout=1100)
-    vp.exit_ok(p, "mem_driver %s/%s" % (mode, tag))
+    vp.exit_ok(p, "mem_driver %s/%s" % (mode, tag), crash_codes=(11,))
     return tpath
 
 
